@@ -88,7 +88,7 @@ def shards(tier):
     out = []
     n = 3 if tier == "quick" else 4
     for h in HELPERS:
-        for k in (KINDS + ["u1"] if tier == "quick" else KINDS_T):
+        for k in (KINDS + ["u1"] + (["td"] if h in ("min", "count", "first", "count_unique") else []) if tier == "quick" else KINDS_T):
             if accepts(h, k):
                 # mode needs a 4-element group for a tie between two values that each occur twice
                 out.append({"mode": "inputs", "helper": h, "kind": k, "n": max(n, 4) if h == "mode" else n})
